@@ -66,50 +66,98 @@ Print Assumptions C12_pipe.
 (* stand-ins for the environment, good enough for the witnesses below (plain ASCII, no escapes needed) *)
 Definition q0 (s : bytes) : bytes := B """" ++ s ++ B """".
 Definition size0 (s : bytes) : option N := if bytes_eqb s (B "7") then Some 7%N else None.
+(* the model of ParseLql / Lql.String() at a variant: [bare] = a keyword-only text is an (empty) statement,
+   [oldtr] = TRUNCATE printed by the earlier printer. The code is (false, false): parse0 / print0. *)
+Definition parse0_v (bare : bool) : bytes -> option lql :=
+  parse_lql_text_v go_unquote (fun _ => None) (fun _ => None) size0 bare.
+Definition print0_v (oldtr : bool) : lql -> bytes := pr_lql_v q0 (fun _ => []) (fun _ => []) oldtr.
 Definition parse0 : bytes -> option lql := parse_lql_text go_unquote (fun _ => None) (fun _ => None) size0.
 Definition print0 : lql -> bytes := pr_lql q0 (fun _ => []) (fun _ => []).
 
-(* Full statement: whatever ParseLql accepts, its print parses again, to a statement with the same members *)
-Definition C12_stmt_statement : Prop :=
-  forall text l, parse0 text = Some l -> parse0 (print0 l) = Some l.
+(* same meaning, on the AST: equal once an empty format string (= the default format, for the one reader of
+   Select.Format in client/shell) is read as no format *)
+Definition lql_norm (l : lql) : lql := match l with LSelect s => LSelect (drop_empty_format s) | _ => l end.
 
-(* Refuted, four ways:
-   - `SELECT` parses to the statement with no member; its print is the empty text, which does not parse;
-   - `TRUNCATE MAXDBSIZE 7` prints as `TRUNCATE`: the size limit is gone after re-parsing;
-   - `SELECT RANGE [ WHERE a=b` parses to a Range with no point, printed as a blank: `SELECT RANGE  WHERE ..` fails;
-   - `SELECT ""` prints as `SELECT`, the empty statement *)
+(* Full statement: whatever ParseLql accepts, its print parses again, to a statement with the same meaning *)
+Definition stmt_statement (parse : bytes -> option lql) (print : lql -> bytes) : Prop :=
+  forall text l, parse text = Some l -> exists l', parse (print l) = Some l' /\ lql_norm l' = lql_norm l.
+Definition C12_stmt_statement : Prop := stmt_statement parse0 print0.
+
+(* Still refuted for the code, by the one shape left: `SELECT RANGE [ WHERE a=b` parses to a Range with no point,
+   printed as a blank: `SELECT RANGE  WHERE ..` fails. (`SELECT ""` prints as `SELECT` and comes back as the bare
+   SELECT, the same meaning.) *)
 Theorem C12_stmt_refuted :
   ~ C12_stmt_statement /\
-  (parse0 (B "SELECT") = Some LNone /\ print0 LNone = [] /\ parse0 [] = None) /\
-  (exists t, parse0 (B "TRUNCATE MAXDBSIZE 7") = Some (LTruncate t) /\ tr_maxdb t = Some 7%N /\
-             print0 (LTruncate t) = B "TRUNCATE" /\
-             exists t', parse0 (B "TRUNCATE") = Some (LTruncate t') /\ tr_maxdb t' = None) /\
   (exists l, parse0 (B "SELECT RANGE [ WHERE a=b") = Some l /\ print0 l = B "SELECT RANGE  WHERE a = ""b""" /\
              parse0 (print0 l) = None) /\
-  (exists s, parse0 (B "SELECT """"") = Some (LSelect s) /\ print0 (LSelect s) = B "SELECT" /\ parse0 (B "SELECT") = Some LNone).
+  (exists s, parse0 (B "SELECT """"") = Some (LSelect s) /\ s_format s = Some [] /\ print0 (LSelect s) = B "SELECT" /\
+             parse0 (B "SELECT") = Some (LSelect empty_select) /\ lql_norm (LSelect s) = LSelect empty_select).
 Proof.
-  split; [|split; [|split; [|split]]].
-  - intros H. specialize (H (B "SELECT") LNone eq_refl). vm_compute in H. discriminate H.
-  - repeat split; vm_compute; reflexivity.
-  - eexists. split; [vm_compute; reflexivity|]. split; [reflexivity|]. split; [vm_compute; reflexivity|].
-    eexists. split; [vm_compute; reflexivity|reflexivity].
+  split; [|split].
+  - intros H.
+    assert (exists l, parse0 (B "SELECT RANGE [ WHERE a=b") = Some l /\ parse0 (print0 l) = None) as (l & E1 & E2)
+      by (eexists; split; [vm_compute; reflexivity|vm_compute; reflexivity]).
+    destruct (H _ _ E1) as (l' & Hl & _). rewrite E2 in Hl. discriminate Hl.
   - eexists. split; [vm_compute; reflexivity|]. split; vm_compute; reflexivity.
-  - eexists. split; [vm_compute; reflexivity|]. split; vm_compute; reflexivity.
+  - eexists. split; [vm_compute; reflexivity|]. repeat split; vm_compute; reflexivity.
 Qed.
 Print Assumptions C12_stmt_refuted.
 
+(* What the two repairs bought. ParseLql as it was (a keyword-only text accepted) with the earlier TRUNCATE printer:
+   `SELECT` parsed to the statement with no member, whose print is the empty text, which does not parse (a bare
+   SELECT query returned nothing); `TRUNCATE MAXDBSIZE 7` printed as `TRUNCATE`: the size limit gone after
+   re-parsing. With the code's variants both texts come back as they went in. *)
+Theorem C12_stmt_before_repairs_refuted :
+  ~ stmt_statement (parse0_v true) (print0_v true) /\
+  (parse0_v true (B "SELECT") = Some LNone /\ print0_v true LNone = [] /\ parse0_v true [] = None) /\
+  (exists t, parse0_v true (B "TRUNCATE MAXDBSIZE 7") = Some (LTruncate t) /\ tr_maxdb t = Some 7%N /\
+             print0_v true (LTruncate t) = B "TRUNCATE" /\
+             exists t', parse0_v true (B "TRUNCATE") = Some (LTruncate t') /\ tr_maxdb t' = None) /\
+  (* the code *)
+  (parse0 (B "SELECT") = Some (LSelect empty_select) /\ print0 (LSelect empty_select) = B "SELECT" /\
+   parse0 (B "SHOW") = None /\ parse0 (B "DESCRIBE") = None /\ parse0 (B "'SELECT'") = None) /\
+  (exists t, parse0 (B "TRUNCATE MAXDBSIZE 7") = Some (LTruncate t) /\
+             print0 (LTruncate t) = B "TRUNCATE MAXDBSIZE 7" /\ parse0 (print0 (LTruncate t)) = Some (LTruncate t)).
+Proof.
+  split; [|split; [|split; [|split]]].
+  - intros H.
+    assert (parse0_v true (B "SELECT") = Some LNone) as E1 by (vm_compute; reflexivity).
+    assert (parse0_v true (print0_v true LNone) = None) as E2 by (vm_compute; reflexivity).
+    destruct (H _ _ E1) as (l' & Hl & _). rewrite E2 in Hl. discriminate Hl.
+  - repeat split; vm_compute; reflexivity.
+  - eexists. split; [vm_compute; reflexivity|]. split; [reflexivity|]. split; [vm_compute; reflexivity|].
+    eexists. split; [vm_compute; reflexivity|reflexivity].
+  - repeat split; vm_compute; reflexivity.
+  - eexists. split; [vm_compute; reflexivity|]. split; vm_compute; reflexivity.
+Qed.
+Print Assumptions C12_stmt_before_repairs_refuted.
+
+(* ParseLql never returns the statement with no member: a keyword-only text is the bare SELECT (= &Select{}) or an error *)
+Theorem C12_stmt_never_empty : forall parse_tags parse_time parse_size ts,
+  parse_lql_tokens parse_tags parse_time parse_size ts <> Some LNone.
+Proof. exact parse_lql_not_none. Qed.
+Print Assumptions C12_stmt_never_empty.
+
 (* Partial: every statement kind round-trips on the token image of its print -- SELECT with any subset of
-   its seven clauses, SHOW PARTITIONS / PIPES, DESCRIBE, TRUNCATE, CREATE / DELETE PIPE -- under stmt_ok, which
-   excludes exactly the refuted shapes (no member at all; MAXDBSIZE; a Range without points; an empty format
-   string; Pipes.Void) and otherwise asks, clause by clause: expressions well-formed as in C12_expr; tag sets,
+   its seven clauses (the bare SELECT included), SHOW PARTITIONS / PIPES, DESCRIBE, TRUNCATE with any subset of its
+   six clauses, CREATE / DELETE PIPE -- under stmt_ok, which excludes the shapes left (a Range without points; an
+   empty format string, for which see C12_select_empty_format; Pipes.Void; the statement with no member, which
+   ParseLql does not return) and otherwise asks, clause by clause: expressions well-formed as in C12_expr; tag sets,
    times and sizes that the environment's own parse functions read back from the environment's own print
-   (parse_tags of the tag line, parse_time of the formatted -- for BEFORE: formatted and quoted -- time,
-   parse_size of the printed size); integers that parse_int reads back from pr_Z. *)
-Theorem C12_stmt_partial : forall parse_tags parse_time parse_size tags_line fmt_time quote l,
-  stmt_ok parse_tags parse_time parse_size tags_line fmt_time quote l ->
-  parse_lql_tokens parse_tags parse_time parse_size (tk_lql tags_line fmt_time quote l) = Some l.
+   (parse_tags of the tag line, parse_time of the formatted time, parse_size of the decimal size); integers that
+   parse_int reads back from pr_Z. *)
+Theorem C12_stmt_partial : forall parse_tags parse_time parse_size tags_line fmt_time l,
+  stmt_ok parse_tags parse_time parse_size tags_line fmt_time l ->
+  parse_lql_tokens parse_tags parse_time parse_size (tk_lql tags_line fmt_time l) = Some l.
 Proof. exact stmt_roundtrip. Qed.
 Print Assumptions C12_stmt_partial.
+
+(* an empty format string is not printed: the SELECT comes back without a format -- the same meaning (lql_norm) *)
+Theorem C12_select_empty_format : forall parse_tags parse_time parse_size tags_line fmt_time s,
+  stmt_ok parse_tags parse_time parse_size tags_line fmt_time (LSelect (drop_empty_format s)) ->
+  parse_lql_tokens parse_tags parse_time parse_size (tk_lql tags_line fmt_time (LSelect s)) = Some (lql_norm (LSelect s)).
+Proof. intros pt ptm ps tl ft s H. exact (rt_select_empty_format pt ptm ps tl ft s H). Qed.
+Print Assumptions C12_select_empty_format.
 
 (* the integer hypothesis of stmt_ok (int_ok) holds for every int64: %d printing and ParseInt(.., 0, 64) are inverse;
    the parser only stores int64 values (parse_int checks the range), so OFFSET/LIMIT never block C12_stmt_partial *)
@@ -117,16 +165,27 @@ Theorem C12_int : forall z, (- 9223372036854775808 <= z <= 9223372036854775807)%
 Proof. exact parse_int_pr_Z. Qed.
 Print Assumptions C12_int.
 
-(* TRUNCATE's printer quotes BEFORE twice: DateTime.String() already quotes, addStringIfNotEmpty quotes again *)
-Theorem C12_truncate_before_quoted_twice : forall quote tags_line fmt_time dry src mn mx b mdb,
+(* The earlier TRUNCATE printer quoted BEFORE twice (DateTime.String() already quotes, addStringIfNotEmpty quoted again);
+   the code's printer writes the quoted time once *)
+Theorem C12_truncate_old_printer_before_quoted_twice : forall quote tags_line fmt_time dry src mn mx b mdb,
   quote (fmt_time b) <> [] ->
-  pr_truncate quote tags_line fmt_time (Truncate dry src mn mx (Some b) mdb) =
-  pr_truncate quote tags_line fmt_time (Truncate dry src mn mx None mdb) ++ B " BEFORE " ++ quote (quote (fmt_time b)).
+  pr_truncate_v quote tags_line fmt_time true (Truncate dry src mn mx (Some b) mdb) =
+  pr_truncate_v quote tags_line fmt_time true (Truncate dry src mn mx None mdb) ++ B " BEFORE " ++ quote (quote (fmt_time b)).
 Proof.
-  intros quote tl ft dry src mn mx b mdb Hq. unfold pr_truncate, pr_kw_str, pr_time. cbn [tr_before tr_dryrun tr_source tr_min tr_max].
+  intros quote tl ft dry src mn mx b mdb Hq. unfold pr_truncate_v, pr_kw_str, pr_time. cbn [tr_before tr_dryrun tr_source tr_min tr_max].
   destruct (quote (ft b)) eqn:E; [contradiction|]. rewrite app_nil_r, <- !app_assoc. reflexivity.
 Qed.
-Print Assumptions C12_truncate_before_quoted_twice.
+Print Assumptions C12_truncate_old_printer_before_quoted_twice.
+
+Theorem C12_truncate_before_quoted_once : forall quote tags_line fmt_time dry src mn mx b,
+  pr_truncate quote tags_line fmt_time (Truncate dry src mn mx (Some b) None) =
+  pr_truncate quote tags_line fmt_time (Truncate dry src mn mx None None) ++ B " BEFORE " ++ quote (fmt_time b).
+Proof.
+  intros quote tl ft dry src mn mx b. unfold pr_truncate, pr_truncate_v, pr_time.
+  change code_truncate_old_printer with false. cbv iota. cbn [tr_before tr_dryrun tr_source tr_min tr_max tr_maxdb pr_kw_size].
+  rewrite !app_nil_r, <- !app_assoc. reflexivity.
+Qed.
+Print Assumptions C12_truncate_before_quoted_once.
 
 (* ---- non-vacuity ---- *)
 (* a = <q, double quote, uote> AND NOT (c >= d OR UPPER(LOWER(t)) LIKE <x, star>) *)
@@ -153,14 +212,30 @@ Definition sample_select : select :=
   Select (Some (B "json")) (Some (SrcExpr sample_e)) (Some (Range (Some 1%Z) (Some 2%Z))) (Some sample_e)
          (Some (B "tail")) (Some (-5)%Z) (Some 100%Z).
 Example sample_select_ok :
-  stmt_ok (fun _ => None) t0 (fun _ => None) (fun _ => []) f0 q0 (LSelect sample_select).
+  stmt_ok (fun _ => None) t0 (fun _ => None) (fun _ => []) f0 (LSelect sample_select).
 Proof.
   cbn [stmt_ok]. unfold select_ok, sample_select. cbn [s_format s_source s_range s_where s_pos s_offset s_limit].
   repeat split; try discriminate; try (vm_compute; reflexivity).
 Qed.
 Example sample_select_tokens :
-  map t_val (tk_lql (fun _ => []) f0 q0 (LSelect (Select None None (Some (Range None (Some 2%Z))) None None (Some (-5)%Z) None))) =
+  map t_val (tk_lql (fun _ => []) f0 (LSelect (Select None None (Some (Range None (Some 2%Z))) None None (Some (-5)%Z) None))) =
   map B ["SELECT"; "RANGE"; "["; ":"; "T2"; "]"; "OFFSET"; "-5"].
+Proof. vm_compute. reflexivity. Qed.
+
+(* the bare SELECT and a TRUNCATE with all six clauses satisfy the hypotheses of C12_stmt_partial *)
+Example sample_bare_select_ok : stmt_ok (fun _ => None) t0 (fun _ => None) (fun _ => []) f0 (LSelect empty_select).
+Proof. cbn [stmt_ok]. unfold select_ok, empty_select. cbn. repeat split; discriminate. Qed.
+Definition s0 (s : bytes) : option N := option_map Z.to_N (digits_val 10 s 0).
+Definition sample_truncate : truncate :=
+  Truncate true (Some (SrcExpr sample_e)) (Some 0%N) (Some 18446744073709551615%N) (Some 1%Z) (Some 7%N).
+Example sample_truncate_ok : stmt_ok (fun _ => None) t0 s0 (fun _ => []) f0 (LTruncate sample_truncate).
+Proof.
+  cbn [stmt_ok]. unfold truncate_ok, sample_truncate. cbn [tr_dryrun tr_source tr_min tr_max tr_before tr_maxdb].
+  repeat split; try (vm_compute; reflexivity). left. reflexivity.
+Qed.
+Example sample_truncate_tokens :
+  map t_val (tk_lql (fun _ => []) f0 (LTruncate (Truncate false None (Some 0%N) None (Some 1%Z) (Some 7%N)))) =
+  map B ["TRUNCATE"; "MINSIZE"; "0"; "BEFORE"; "T1"; "MAXDBSIZE"; "7"].
 Proof. vm_compute. reflexivity. Qed.
 
 (* the byte-level hypotheses hold for the sample with the \xHH quoting function and participle's unquote *)
